@@ -143,6 +143,16 @@ CMR_ERROR CMRregularityDecomposeSeriesParallel(CMR* cmr, DecompositionTask* task
     task->node->testedSeriesParallel = true;
   }
 
+  if (isSeriesParallel && !separation && !violatorSubmatrix)
+  {
+    /* All rows and columns were removed by series-parallel reductions, so this node is a leaf. */
+    CMR_CALL( CMRregularityTaskFree(cmr, &task) );
+    CMR_CALL( CMRfreeStackArray(cmr, &reductions) );
+    CMR_CALL( CMRsubmatFree(cmr, &reducedSubmatrix) );
+
+    return CMR_OKAY;
+  }
+
   /* Note: decReduced is the node for the SP-reduced submatrix (equal to dec if there are no SP-reductions). */
 
   /* Modify the decomposition for the 2-separation. */
